@@ -224,7 +224,19 @@ func MergerLoops(p *load.Prog, r *oblig.Report, rule string) {
 		return true
 	}
 	n := 0
-	ast.Inspect(fd.Body, func(nd ast.Node) bool {
+	// the merger's own loops, and those of the unexported helpers it hands phases of the merge to
+	var bodies []ast.Node
+	for _, hd := range p.WithHelpers(pk, fd, 2) {
+		if hd == fd || !ast.IsExported(hd.Name.Name) {
+			bodies = append(bodies, hd.Body)
+		}
+	}
+	inspectAll := func(f func(ast.Node) bool) {
+		for _, b := range bodies {
+			ast.Inspect(b, f)
+		}
+	}
+	inspectAll(func(nd ast.Node) bool {
 		rs, ok := nd.(*ast.RangeStmt)
 		if !ok {
 			return true
@@ -489,9 +501,9 @@ func Attribution(p *load.Prog, r *oblig.Report, rule string) {
 			}
 			n++
 			target := stripUnique(si.Path(st.Addr))
-			file := "?"
+			file, rawFile := "?", "?"
 			if fv, ok := litFields(al)["File"]; ok {
-				file = AccessPath(si.Arg(fv))
+				file, rawFile = AccessPath(si.Arg(fv)), AccessPath(fv)
 			}
 			fileS := stripUnique(file)
 			construct := "source-info:" + target
@@ -501,7 +513,7 @@ func Attribution(p *load.Prog, r *oblig.Report, rule string) {
 			switch {
 			case fromParse && strings.HasSuffix(fileS, ".Name") && parsedContentsOf(fn, strings.TrimSuffix(file, ".Name")):
 				r.OK(rule, construct, p.Pos(st.Pos()), "same-file", "File = Name of the module whose Contents were parsed")
-			case !fromParse && isExtensionKey(fn, file):
+			case !fromParse && (isExtensionKey(fn, file) || (st.Parent() != fn && isExtensionKey(st.Parent(), rawFile))):
 				r.OK(rule, construct, p.Pos(st.Pos()), "same-file", "File = key under which the extension was filed")
 			default:
 				r.Bad(rule, construct, p.Pos(st.Pos()), "the source file recorded for "+target+" is "+fileS+", which is not the file whose parse produced that object")
